@@ -4,9 +4,31 @@
 
 #include <cstring>
 #include <memory>
+#include <type_traits>
 #include <utility>
 
 namespace yaclib::detail::fiber {
+
+// std::atomic arithmetic on signed integers wraps around, plain signed arithmetic would be undefined behaviour
+template <typename T>
+constexpr T WrappingAdd(T lhs, T rhs) noexcept {
+  if constexpr (std::is_integral_v<T>) {
+    using U = std::make_unsigned_t<T>;
+    return static_cast<T>(static_cast<U>(lhs) + static_cast<U>(rhs));
+  } else {
+    return lhs + rhs;
+  }
+}
+
+template <typename T>
+constexpr T WrappingSub(T lhs, T rhs) noexcept {
+  if constexpr (std::is_integral_v<T>) {
+    using U = std::make_unsigned_t<T>;
+    return static_cast<T>(static_cast<U>(lhs) - static_cast<U>(rhs));
+  } else {
+    return lhs - rhs;
+  }
+}
 
 template <typename T>
 class AtomicBase : public AtomicWait<T> {
@@ -101,38 +123,38 @@ class AtomicFloatingBase<T, true> : public AtomicBase<T> {
 
   T fetch_add(T arg, std::memory_order) noexcept {
     auto val = _value;
-    _value += arg;
+    _value = WrappingAdd<T>(_value, arg);
     return val;
   }
   T fetch_add(T arg, std::memory_order) volatile noexcept {
     auto val = _value;
-    _value += arg;
+    _value = WrappingAdd<T>(_value, arg);
     return val;
   }
 
   T fetch_sub(T arg, std::memory_order) noexcept {
     auto val = _value;
-    _value -= arg;
+    _value = WrappingSub<T>(_value, arg);
     return val;
   }
   T fetch_sub(T arg, std::memory_order) volatile noexcept {
     auto val = _value;
-    _value -= arg;
+    _value = WrappingSub<T>(_value, arg);
     return val;
   }
 
   T operator+=(T arg) noexcept {
-    return _value += arg;
+    return _value = WrappingAdd<T>(_value, arg);
   }
   T operator+=(T arg) volatile noexcept {
-    return _value += arg;
+    return _value = WrappingAdd<T>(_value, arg);
   }
 
   T operator-=(T arg) noexcept {
-    return _value -= arg;
+    return _value = WrappingSub<T>(_value, arg);
   }
   T operator-=(T arg) volatile noexcept {
-    return _value -= arg;
+    return _value = WrappingSub<T>(_value, arg);
   }
 
  protected:
@@ -188,31 +210,31 @@ class AtomicIntegralBase<T, true> : public AtomicFloatingBase<T, true> {
   }
 
   T operator++() noexcept {
-    return ++_value;
+    return _value = WrappingAdd<T>(_value, T{1});
   }
   T operator++() volatile noexcept {
-    return ++_value;
+    return _value = WrappingAdd<T>(_value, T{1});
   }
 
   T operator++(int) noexcept {
-    return _value++;
+    return std::exchange(_value, WrappingAdd<T>(_value, T{1}));
   }
   T operator++(int) volatile noexcept {
-    return _value++;
+    return std::exchange(_value, WrappingAdd<T>(_value, T{1}));
   }
 
   T operator--() noexcept {
-    return --_value;
+    return _value = WrappingSub<T>(_value, T{1});
   }
   T operator--() volatile noexcept {
-    return --_value;
+    return _value = WrappingSub<T>(_value, T{1});
   }
 
   T operator--(int) noexcept {
-    return _value--;
+    return std::exchange(_value, WrappingSub<T>(_value, T{1}));
   }
   T operator--(int) volatile noexcept {
-    return _value--;
+    return std::exchange(_value, WrappingSub<T>(_value, T{1}));
   }
 
   T operator&=(T arg) noexcept {
